@@ -129,7 +129,7 @@ func genInventory(c *ctx) (string, error) {
 							path = "*" + path
 						}
 						path = indexContents.ReplaceAllString(path, "[]")
-						sharedWriteKinds = append(sharedWriteKinds, pkgName+": "+types.TypeString(o.Type(), func(q *types.Package) string { return q.Name() })+": "+path)
+						sharedWriteKinds = append(sharedWriteKinds, pkgName+": "+strings.TrimPrefix(types.TypeString(o.Type(), func(q *types.Package) string { return q.Name() }), "*")+": "+path)
 					}
 				}
 				g := &guardCtx{c: c, info: p.TypesInfo}
